@@ -340,7 +340,9 @@ var portMu sync.Mutex
 func randomEvenPort() int {
 	portMu.Lock()
 	defer portMu.Unlock()
-	return 20000 + 2*portRand.Intn(20000)
+	// below the ephemeral range (32768..60999): long runs leave tens of thousands of client ports in TIME_WAIT, and a
+	// listener must not depend on one of those being free
+	return 10000 + 2*portRand.Intn(11000)
 }
 
 var tlsOnce sync.Once
@@ -383,7 +385,7 @@ func StartWorld(cfg WorldCfg) (*World, error) {
 		h := &Handler{w: w, connIDs: map[*gortsplib.ServerConn]int{}, sessIDs: map[*gortsplib.ServerSession]int{}, sessions: map[int]*gortsplib.ServerSession{}}
 		w.H = h
 		s := &gortsplib.Server{
-			RTSPAddress:              ip + ":0",
+			RTSPAddress:              fmt.Sprintf("%s:%d", ip, randomEvenPort()+1),
 			ReadTimeout:              cfg.ReadTimeout,
 			WriteTimeout:             cfg.WriteTimeout,
 			IdleTimeout:              cfg.IdleTimeout,
